@@ -4,6 +4,7 @@ C15 - dataclass data layouts and field-name resolution: the full decision table 
 from __future__ import annotations
 
 import itertools
+import types
 import typing as t
 import warnings
 
@@ -34,6 +35,19 @@ INFMT = [['struct'], ['tuple'], ['struct', 'tuple']]
 KW = [(False, False), (False, True)]
 
 
+_TV = t.TypeVar('_TV')
+
+
+_LA: t.List[t.Any] = []
+
+
+def _lookalike(pane):
+    if not _LA:
+        _LA.append(grammar.pin(type('LookAlike', (pane.PaneBase,), {'__annotations__': {'my_field': str, 'other_one': int}, 'other_one': 7,
+                                                                     '__module__': 'mc.generated'})))
+    return _LA[0]
+
+
 def configs():
     idx = 0
     for cn, fn, ae, inf, (kw1, kw2) in itertools.product(c05.CLASS_NAMING, c05.FIELD_NAMING, ALLOW, INFMT, KW):
@@ -46,6 +60,11 @@ def configs():
             # the same class with a field the class initialises itself (init=False) between the two: positional data skips it
             hidden = dict(name='hidden', type=['list', 'int'], default=None, init=False, exclude=True, compare=False, repr=False, kw_only=False)
             yield idx, dict(spec, fields=[f1, hidden, f2], init_false_setter=[['hidden', '[]']])
+            idx += 1
+        if not kw1 and not kw2:
+            # the same class written as a generic one (second field typed by a type variable) and subscripted with int: naming and
+            # layout rules are those of the plain class
+            yield idx, dict(spec, generic=True)
             idx += 1
 
 
@@ -83,6 +102,10 @@ def data_for(spec, tier):
             continue
         seen.add(ks)
         yield {k: ('v' if family(k) == 1 else 4) for k in ks}
+        if len(ks) <= 1 or (len(ks) == 2 and len(seen) % 7 == 0):
+            # the same keys in mappings that are not dicts
+            yield types.MappingProxyType({k: ('v' if family(k) == 1 else 4) for k in ks})
+            yield values.BareMapping({k: ('v' if family(k) == 1 else 4) for k in ks})
         if ks:
             # one ill-kinded value
             d = {k: ('v' if family(k) == 1 else 4) for k in ks}
@@ -109,7 +132,13 @@ def plan(tier, seed):
 def run_config(pane, res, idx, spec, tier, only=None):
     from pane.errors import ConvertError
     try:
-        cls = classes_gen.build_class(spec, grammar.build, values.eval_expr, grammar.REGISTRY)
+        if spec.get('generic'):
+            gspec = dict(spec, fields=[dict(f, type='__T__') if f['name'] == 'other_one' else f for f in spec['fields']])
+            gen = classes_gen.build_class(gspec, lambda a: _TV if a == '__T__' else grammar.build(a), values.eval_expr, grammar.REGISTRY,
+                                          bases=(pane.PaneBase, t.Generic[_TV]))
+            cls = grammar.pin(gen[int])
+        else:
+            cls = classes_gen.build_class(spec, grammar.build, values.eval_expr, grammar.REGISTRY)
     except (TypeError, ValueError):
         res['outcomes']['class_refused'] += 1
         return
@@ -117,6 +146,7 @@ def run_config(pane, res, idx, spec, tier, only=None):
     sig_cfg = c05.cube_sig(dict(spec, opts=dict(opts, out_format=opts.get('out_format', 'struct'))))
     sig_cfg = {k: sig_cfg[k] for k in ('in_format', 'class_naming', 'field_naming')}
     sig_cfg['allow_extra'] = opts['allow_extra']
+    union_done = False
     for di, d in enumerate(data_for(spec, tier)):
         if only is not None and di != only:
             continue
@@ -171,6 +201,20 @@ def run_config(pane, res, idx, spec, tier, only=None):
                 p = f"into_data raised {type(e).__name__}: {e}"
             if p:
                 core.add_violation(res, {'kind': 'wrong_output_form', **sig_cfg}, f"{desc}: into_data -> {p}", cell, len(values.expr(d)))
+            elif not union_done:
+                # the same instance written through Union[<a plain class with the same Python field names>, cls]: it is an instance
+                # of cls, so the output is cls's configured layout and names, not the look-alike's
+                union_done = True
+                U = grammar.pin(t.Union[_lookalike(pane), cls])
+                try:
+                    du = pane.into_data(x, U)
+                    pu = None if (values.typed_eq(du, dd) or du == dd) else f"{du!r}, but into_data(x, its own class) is {dd!r}"
+                except Exception as e:  # noqa
+                    pu = f"raised {type(e).__name__}: {core.sstr(e, 80)}"
+                res['transitions'] += 1
+                if pu:
+                    core.add_violation(res, {'kind': 'output_through_union_uses_other_class', **sig_cfg},
+                                       f"{desc}: into_data(x, Union[LookAlike, cls]) -> {pu}", cell, len(values.expr(d)))
         else:
             if out[0] == 'ok':
                 core.add_violation(res, {'kind': 'accepts_unresolvable_data', 'why': r[1], 'shape': shape[:4], **sig_cfg},
